@@ -4,6 +4,7 @@ import gen
 from enccommon import model_line, canon_impl
 
 PID = 'C11'
+HANDLES_ABNORMAL = True
 PROFILES = ['debug', 'release']
 RULE = ('encode_eci over structured inputs x all 64 mode subsets (empty set and sets without ASCII included) x symbol lists '
         '(empty, singletons, pairs, subsets, default, all) x macros x FNC1 x ECI numbers of the three designator forms; degenerate '
@@ -38,7 +39,11 @@ def gen_cases(rng, tier, ctx):
 
 
 def check_impl(c, out, ctx, prof):
-    if out.startswith('panic') or out.startswith('crash') or out == 'not-run':
+    if out == 'timeout':
+        return 'encoding did not finish within the time limit (hang)'
+    if out == 'not-run':
+        return None
+    if out.startswith('panic') or out.startswith('crash'):
         return 'encoding panicked (%s build)' % prof
     empty = not c['cfg']['wl']
     if out.startswith('err SymbolListEmpty') and not empty:
